@@ -108,7 +108,7 @@ Lemma header_len : forall m, length (header m) = 9%nat. Proof. reflexivity. Qed.
 Lemma from_io_frame : forall m rest o, msg_wf m ->
   exists o', from_io {| avail := enc m ++ rest; oracle := o |} = Some (m, {| avail := rest; oracle := o' |}).
 Proof.
-  intros [ty cid data] rest o [Hty [Hcid [Hlen Hb]]]. cbn [mty mcid mdata] in *.
+  intros [ty cid data] rest o [Hty [Hcid Hlen]]. cbn [mty mcid mdata] in *.
   unfold from_io.
   destruct (read_n_ok 9 {| avail := enc {| mty := ty; mcid := cid; mdata := data |} ++ rest; oracle := o |}) as [o1 E].
   { cbn [avail]. rewrite app_length, enc_header, app_length, header_len. lia. }
@@ -136,7 +136,7 @@ Lemma from_io_partial : forall m p o, msg_wf m ->
   (length p < length (enc m))%nat -> p = firstn (length p) (enc m) ->
   from_io {| avail := p; oracle := o |} = None.
 Proof.
-  intros [ty cid data] p o [Hty [Hcid [Hlen Hb]]] Hl Hp. cbn [mty mcid mdata] in *.
+  intros [ty cid data] p o [Hty [Hcid Hlen]] Hl Hp. cbn [mty mcid mdata] in *.
   unfold from_io.
   destruct (Nat.lt_ge_cases (length p) 9) as [H9|H9].
   - rewrite read_n_eof; [reflexivity|cbn; exact H9].
